@@ -1,12 +1,15 @@
 #!/usr/bin/env python3
 """Confirm a seeded change produced by a sub-agent and file it under /verif/seeded/<id>/.
-usage: confirm_seed.py <Cxx> <k>   (reads /tmp/seed/out-Cxx/{patchk.diff,demok.py,metak.json})
+usage: confirm_seed.py <Cxx> <k> [<src root> [<offset>]]   (reads <src root>/out-Cxx/{patchk.diff,demok.py,metak.json}; default
+src root /tmp/seed; the seed is filed as Cxx-<k+offset>)
 Confirms in a scratch copy of /repo (removed afterwards): demo passes on the clean tree, fails with the
 patch, pinned baseline (382 tests) still passes with the patch."""
 import json, os, shutil, subprocess, sys, tempfile
 prop, k = sys.argv[1], sys.argv[2]
-src = "/tmp/seed/out-%s" % prop
-sid = "%s-%s" % (prop, k)
+root = sys.argv[3] if len(sys.argv) > 3 else "/tmp/seed"
+off = int(sys.argv[4]) if len(sys.argv) > 4 else 0
+src = "%s/out-%s" % (root, prop)
+sid = "%s-%s" % (prop, int(k) + off)
 dst = "/verif/seeded/%s" % sid
 patch, demo, meta = ["%s/%s%s.%s" % (src, n, k, e) for n, e in (("patch", "diff"), ("demo", "py"), ("meta", "json"))]
 for f in (patch, demo):
